@@ -123,6 +123,10 @@ def new_model(fam, prof, seed):
             return m.HourlyModel(settings={"train_features": ["ghi", "temperature"], "seed": seed})
         if prof == "supp":              # three supplemental time-series columns, named in an order that is not the sorted one
             return m.HourlyModel(settings={"seed": seed, "supplemental_time_series_columns": ["sup_c", "sup_a", "sup_b"]})
+        if prof == "fewclusters":       # a permitted clustering option: at most six temporal clusters (the default is 24)
+            return m.HourlyModel(settings={"seed": seed, "temporal_cluster": {"n_cluster_upper": 6}})
+        if prof == "mincluster":        # a permitted clustering option: small temporal clusters are merged / set aside
+            return m.HourlyModel(settings={"seed": seed, "temporal_cluster": {"min_cluster_size": 3}})
         if prof == "robust":
             return m.HourlyModel(settings=m.HourlyNonSolarSettings(seed=seed, scaling_method="robustscaler"))
     if fam == "caltrack":
